@@ -35,6 +35,12 @@ CHECKS = {
  "C04": dict(level="exploration", ref="7/C04",
    text="The same histories, with every message carrying a unique tag and its own verdict that the backend derives from the content it read, and aborted deliveries returning late with an error that names the message they belonged to. The client stream and reply stream are walked in tandem by a reference framing model (reply counts computed from the replies: 354, 334, LMTP recipient count, closing notice). Oracles: every reply passes a strict RFC 5321 4.2 parser; every reply except greeting/EHLO/3xx carries an enhanced code of its class; no command is left unanswered while the connection stays open and no unsolicited reply except one closing notice; the final reply of message k is positive iff the backend's Data for the payload tagged k returned nil with EOF seen, a rejection carries E-k, and no reply ever carries another message's or a stale delivery's outcome.",
    note="8-bit octets and reply line length are not judged; the enhanced code is required on the last line of a reply."),
+ "C16": dict(level="exploration", ref="7/C16",
+   text="The two real halves together: real smtp.Client (Mail, Rcpt, Data/LMTPData, Close twice, Noop, Quit) against the real smtp.Server over the simulated, re-segmenting transport. Sweep of all 21845 bodies over the tokens {'.', LF, CRLF, x} up to length 7 (thorough; 3000 in quick) plus seeded 8-bit bodies up to ~9000 octets, every kind of Write partition, accept/reject, SMTP and LMTP. Oracles: backend octets = body with bare LF -> CRLF and a final CRLF ensured; Mail/Rcpt saw exactly the sender and recipient list; the first Close returns nil iff the backend accepted, else an *SMTPError with the backend's code (or the statuses through the LMTP callback); the second Close returns an error and the transport tap shows not one more octet; the following NOOP succeeds.",
+   note="An empty body may arrive as \"\" or CRLF. Bodies contain CR only inside CRLF, as the property states."),
+ "C18": dict(level="exploration", ref="7/C18",
+   text="Real LMTP client against the real LMTP server with a per-recipient backend: the systematic product 1-3 consecutive transactions x {LMTPData with callback, Data without} with drawn recipient counts, RCPT-time refusals and per-recipient verdict vectors. Oracles: in transaction t the callback fires exactly once per recipient accepted in t, in order, with that recipient's code; Close returns within one fake minute (a Close waiting for replies that never come costs 12 fake minutes and is caught on the fake clock); without a callback any post-DATA refusal makes Close return an *SMTPError; the NOOP after each transaction gets its own reply.",
+   note="Timing is judged on the fake clock only as 'well before SubmissionTimeout' (one minute)."),
  "C01": dict(level="exploration", ref="7/C01",
    text="Seeded search plus a systematic sweep of all 5461 bodies over the byte classes {'.',CR,LF,other} up to length 6, each run under a drawn transport segmentation, server short-read plan and backend read-size plan; the octets and terminal error the real dataReader hands the backend are compared with an RFC 5321 reference unstuffer. Sampling, not proof: evidence of byte-exactness over the explored streams x schedules.",
    note="Trusts: the reference unstuffer (cross-checked against a reference stuffer), Go's testing/synctest fake clock, go1.26.8 building go-smtp the same way go1.23.5 does."),
